@@ -24,7 +24,10 @@ Scalar(tv)  == tv.g \in {"bool", "int", "uint8", "float", "string"}
 NumKind(tv) == tv.g \in {"int", "uint8", "float"}
 Leaf(t, s)  == [p |-> "leaf", t |-> t, s |-> s]
 AnyP         == [p |-> "any"]
-LeafOf(tv)  == IF tv.g = "bool" THEN Leaf("bool", tv.s) ELSE IF tv.g = "string" THEN Leaf("str", tv.s) ELSE Leaf("num", tv.s)
+\* a float leaf also carries s64, the text of the float64 expansion (differs from s for a float32 such as 1.1): the
+\* as-implemented reading of alt.reflectValue
+LeafOf(tv)  == IF tv.g = "bool" THEN Leaf("bool", tv.s) ELSE IF tv.g = "string" THEN Leaf("str", tv.s)
+               ELSE IF tv.g = "float" THEN [p |-> "leaf", t |-> "num", s |-> tv.s, s64 |-> tv.s64] ELSE Leaf("num", tv.s)
 
 IsNilPtr(tv)  == tv.g \in {"ptr", "iface"} /\ tv.nil
 IsNilCont(tv) == tv.g \in {"slice", "map"} /\ tv.nil
@@ -164,6 +167,7 @@ Dev(pat, tr, d) ==
   \* as-implemented reading (pretty's SEN writer): a string whose text reads as a literal or a number is written bare and
   \* re-read as that literal / number with the same text
   ELSE IF pat.p = "leaf" /\ pat.t = "str" /\ tr.t \in {"bool", "num"} /\ tr.s = pat.s THEN <<[w |-> "as-implemented:sen-bare-literal", d |-> d]>>
+  ELSE IF pat.p = "leaf" /\ "s64" \in DOMAIN pat /\ tr.t = "num" /\ tr.s = pat.s64 THEN <<[w |-> "as-implemented:float32-widened", d |-> d]>>
   ELSE IF pat.p \in {"leaf", "nilarr", "nilobj"} THEN <<[w |-> IF pat.p = "leaf" /\ tr.t = pat.t THEN "value" ELSE <<"type", tr.t>>, d |-> d]>>
   ELSE IF pat.p = "arr" THEN (IF tr.t # "arr" THEN <<[w |-> <<"type", tr.t>>, d |-> d]>>
                               ELSE IF Len(tr.a) # Len(pat.a) THEN <<[w |-> "length", d |-> d]>> ELSE DevElems(pat.a, tr.a, 1, d))
